@@ -119,6 +119,8 @@ package influxql
 
 // Parser.Scan / ScanRegex: one token is delivered: from the ring (depth-1) or scanned (depth stays 0)
 //@ func (*Parser).Scan
+//@   modifies fresh, bufScanner.*, reader.*, Lib#rscur, Lib#content, SelectStatement.IsRawQuery, SelectStatement.groupByInterval, Cell#error, validateField
+//@   frameprops C04 C17
 //@   props C04 C07
 //@   safety C04
 //@   requires p != nil && p.s != nil && 0 <= p.s.i && p.s.i < 3 && 0 <= p.s.n && p.s.n <= 3 && p.s.s != nil && p.s.s.r != nil && 0 <= p.s.s.r.i && p.s.s.r.i < 3 && 0 <= p.s.s.r.n && p.s.s.r.n <= 3
@@ -128,6 +130,8 @@ package influxql
 //@   ensures old(p.s.n) == 0 ==> p.s.n == 0
 
 //@ func (*Parser).ScanRegex
+//@   modifies fresh, bufScanner.*, reader.*, Lib#rscur, Lib#content, SelectStatement.IsRawQuery, SelectStatement.groupByInterval, Cell#error, validateField
+//@   frameprops C04 C17
 //@   props C04 C07
 //@   safety C04
 //@   requires p != nil && p.s != nil && 0 <= p.s.i && p.s.i < 3 && 0 <= p.s.n && p.s.n <= 3 && p.s.s != nil && p.s.s.r != nil && 0 <= p.s.s.r.i && p.s.s.r.i < 3 && 0 <= p.s.s.r.n && p.s.s.r.n <= 3
@@ -137,6 +141,8 @@ package influxql
 //@   ensures old(p.s.n) == 0 ==> p.s.n == 0
 
 //@ func (*Parser).ScanIgnoreWhitespace
+//@   modifies fresh, bufScanner.*, reader.*, Lib#rscur, Lib#content, SelectStatement.IsRawQuery, SelectStatement.groupByInterval, Cell#error, validateField
+//@   frameprops C04 C17
 //@   props C04 C07 C16
 //@   safety C04
 //@   requires p != nil && p.s != nil && 0 <= p.s.i && p.s.i < 3 && 0 <= p.s.n && p.s.n <= 3 && p.s.s != nil && p.s.s.r != nil && 0 <= p.s.s.r.i && p.s.s.r.i < 3 && 0 <= p.s.s.r.n && p.s.s.r.n <= 3
@@ -148,6 +154,8 @@ package influxql
 //@   loop 1 invariant p.s == entry(p.s) && p.s.s == entry(p.s.s) && p.s.s.r == entry(p.s.s.r) && 0 <= p.s.s.r.i && p.s.s.r.i < 3 && 0 <= p.s.s.r.n && p.s.s.r.n <= 3 && 0 <= p.s.i && p.s.i < 3 && 0 <= p.s.n && p.s.n <= entry(p.s.n)
 
 //@ func (*Parser).consumeWhitespace
+//@   modifies fresh, bufScanner.*, reader.*, Lib#rscur, Lib#content, SelectStatement.IsRawQuery, SelectStatement.groupByInterval, Cell#error, validateField
+//@   frameprops C04 C17
 //@   props C04 C16
 //@   safety C04
 //@   requires p != nil && p.s != nil && 0 <= p.s.i && p.s.i < 3 && 0 <= p.s.n && p.s.n <= 3 && p.s.s != nil && p.s.s.r != nil && 0 <= p.s.s.r.i && p.s.s.r.i < 3 && 0 <= p.s.s.r.n && p.s.s.r.n <= 3
@@ -156,6 +164,8 @@ package influxql
 //@   ensures p.s.n <= old(p.s.n) || (old(p.s.n) == 0 && p.s.n <= 1)
 
 //@ func (*Parser).parseTokens
+//@   modifies fresh, bufScanner.*, reader.*, Lib#rscur, Lib#content, SelectStatement.IsRawQuery, SelectStatement.groupByInterval, Cell#error, validateField
+//@   frameprops C04 C17
 //@   props C04
 //@   safety C04
 //@   requires p != nil && p.s != nil && 0 <= p.s.i && p.s.i < 3 && 0 <= p.s.n && p.s.n <= 3 && p.s.s != nil && p.s.s.r != nil && 0 <= p.s.s.r.i && p.s.s.r.i < 3 && 0 <= p.s.s.r.n && p.s.s.r.n <= 3
@@ -171,6 +181,8 @@ package influxql
 // (Handlers added by users of the exported Language variable are assumed to
 // satisfy it as well.)
 //@ func fntype:func(*Parser) (Statement, error)
+//@   modifies fresh, bufScanner.*, reader.*, Lib#rscur, Lib#content, SelectStatement.IsRawQuery, SelectStatement.groupByInterval, Cell#error, validateField
+//@   frameprops C04 C17
 //@   props C04
 //@   safety C04
 //@   params p
@@ -178,18 +190,22 @@ package influxql
 //@   requires p.s.n <= 1
 //@   requires forallint(j, 0 <= j && j < rslen(p.s.s.r) ==> rsin(p.s.s.r, j) != 0)
 //@   ensures p.s == old(p.s) && p.s.s == old(p.s.s) && p.s.s.r == old(p.s.s.r) && p.s != nil && 0 <= p.s.i && p.s.i < 3 && 0 <= p.s.n && p.s.s != nil && p.s.s.r != nil && 0 <= p.s.s.r.i && p.s.s.r.i < 3 && 0 <= p.s.s.r.n && p.s.s.r.n <= 3 && p.s.n <= 3
-//@   ensures result1 == nil ==> result0 != nil
+//@   ensures result1 == nil ==> notnil(result0)
+//@   ensures result1 == nil ==> fresh(result0)
 //@   ensures result1 == nil ==> p.s.n <= 1
 
 //@ globalinv Language != nil
 
 //@ func (*ParseTree).Parse
+//@   modifies fresh, bufScanner.*, reader.*, Lib#rscur, Lib#content, SelectStatement.IsRawQuery, SelectStatement.groupByInterval, Cell#error, validateField
+//@   frameprops C04 C17
 //@   props C04
 //@   safety C04
 //@   requires t != nil && p.s.n <= 1
 //@   requires p != nil && p.s != nil && 0 <= p.s.i && p.s.i < 3 && 0 <= p.s.n && p.s.s != nil && p.s.s.r != nil && 0 <= p.s.s.r.i && p.s.s.r.i < 3 && 0 <= p.s.s.r.n && p.s.s.r.n <= 3 && p.s.n <= 3
 //@   requires forallint(j, 0 <= j && j < rslen(p.s.s.r) ==> rsin(p.s.s.r, j) != 0)
 //@   ensures p.s == old(p.s) && p.s.s == old(p.s.s) && p.s.s.r == old(p.s.s.r) && p.s != nil && 0 <= p.s.i && p.s.i < 3 && 0 <= p.s.n && p.s.s != nil && p.s.s.r != nil && 0 <= p.s.s.r.i && p.s.s.r.i < 3 && 0 <= p.s.s.r.n && p.s.s.r.n <= 3 && p.s.n <= 3
-//@   ensures result1 == nil ==> result0 != nil
+//@   ensures result1 == nil ==> notnil(result0)
+//@   ensures result1 == nil ==> fresh(result0)
 //@   ensures result1 == nil ==> p.s.n <= 1
 //@   loop * invariant t != nil && p.s.n <= 1 && p.s == entry(p.s) && p.s.s == entry(p.s.s) && p.s.s.r == entry(p.s.s.r) && p.s != nil && 0 <= p.s.i && p.s.i < 3 && 0 <= p.s.n && p.s.s != nil && p.s.s.r != nil && 0 <= p.s.s.r.i && p.s.s.r.i < 3 && 0 <= p.s.s.r.n && p.s.s.r.n <= 3 && p.s.n <= 3
